@@ -101,7 +101,7 @@ def run(idx: Index, rep: Report, tier: str) -> None:
             continue
         handled = {c for s in br[0].body for c in str_consts(s)}
         for tok in sorted(set(emitted)):
-            ok = any(tok.strip() in h for h in handled)
+            ok = any(tok.strip() == h.strip() for h in handled)
             rep.check(ok, rule2, f"reader branch 'up:{word}[' handles the token '{tok}' that {cname}.__repr__ emits", cts.loc(br[0]), construct=f"'{tok}' vs handled {sorted(handled)}", detail="" if ok else f"a half-bounded {word} type is written as 'up:{word}[-inf, 5]' / 'up:{word}[0, inf]' but the reader passes the token to a number constructor: reading the message raises", function=cts.qualname)
     for lit in [c for c in str_consts(pt.node) if c.startswith("up:") and "{" not in c]:
         if lit in reader_consts:
